@@ -461,6 +461,50 @@ func dispKeyWholeHierarchy(fd *ast.FuncDecl) bool {
 	return ranged && !indexed
 }
 
+// dispWritesField: the function writes the map field as a whole or an entry of it:
+// `x.field = …`, `x.field[k] = …`, `delete(x.field, …)`, `clear(x.field)`.
+func dispWritesField(fd *ast.FuncDecl, field string) bool {
+	found := false
+	ast.Inspect(fd.Body, func(n ast.Node) bool {
+		switch tn := n.(type) {
+		case *ast.AssignStmt:
+			for _, lhs := range tn.Lhs {
+				if ix, ok := lhs.(*ast.IndexExpr); ok {
+					lhs = ix.X
+				}
+				if dispIsField(lhs, field) {
+					found = true
+				}
+			}
+		case *ast.CallExpr:
+			if id, ok := tn.Fun.(*ast.Ident); ok && (id.Name == "delete" || id.Name == "clear") && 0 < len(tn.Args) && dispIsField(tn.Args[0], field) {
+				found = true
+			}
+		}
+		return true
+	})
+	return found
+}
+
+// dispEveryTableWriterResetsCache: every function of pkg/generic that writes Aux.methods (an entry,
+// a deletion or the whole map — whatever entry point it serves: defmethod, remove-method, a
+// re-evaluated defgeneric, …) also resets Aux.cache, itself or through a helper up to two calls
+// deep. A constructor that builds a new Aux with a composite literal writes no field of an
+// existing one and is not concerned.
+func dispEveryTableWriterResetsCache(funcs dispFuncs) bool {
+	writers := 0
+	for _, fd := range funcs {
+		if !dispWritesField(fd, "methods") {
+			continue
+		}
+		writers++
+		if !dispResets(fd, funcs, "cache", false, 2) {
+			return false
+		}
+	}
+	return 0 < writers
+}
+
 func genDispatchFacts(repo string) (string, error) {
 	funcs, err := dispLoad(repo)
 	if err != nil {
@@ -490,6 +534,7 @@ func genDispatchFacts(repo string) (string, error) {
 		{"defmethodMutatesInOneSection", "addMethodCaller changes the method table and resets the cache in one critical section", dispMutatesInOneSection(funcs["addMethodCaller"], funcs)},
 		{"addMethodMutatesInOneSection", "Aux.AddMethod changes the method table and resets the cache in one critical section", dispMutatesInOneSection(funcs["Aux.AddMethod"], funcs)},
 		{"removeMethodMutatesInOneSection", "RemoveMethod.Call changes the method table and resets the cache in one critical section", dispMutatesInOneSection(funcs["RemoveMethod.Call"], funcs)},
+		{"everyTableWriterResetsCache", "every function of pkg/generic that writes Aux.methods (entry, deletion or whole map) also resets Aux.cache", dispEveryTableWriterResetsCache(funcs)},
 		{"specKeyIsWholeHierarchy", "buildSpecKey is made of the whole Hierarchy() of every required argument", dispKeyWholeHierarchy(funcs["buildSpecKey"])},
 	}
 	for _, f := range facts {
